@@ -119,7 +119,12 @@ func init() {
 
 type myErr struct{ M string }
 
-func (e *myErr) Error() string { return e.M }
+func (e *myErr) Error() string {
+	if e == nil {
+		return "<nil *myErr>"
+	}
+	return e.M
+}
 
 var myErrType = reflect.TypeOf((*myErr)(nil))
 
@@ -144,6 +149,19 @@ type sUnexpC struct {
 type sUnexpD struct {
 	am.Struct
 	alpha T0
+}
+
+// an embedded exported type next to the marker is an ordinary field named after the type
+type Emb struct{ P string }
+type sEmbedded struct {
+	am.Struct
+	Emb
+	Alpha T0
+}
+type sEmbeddedPtr struct {
+	am.Struct
+	Alpha T0
+	*Emb  `argmapper:",typeOnly"`
 }
 
 var _ = sUnexpA{}.beta
@@ -255,7 +273,9 @@ func checkSet(what string, vs *am.ValueSet, want []am.Value, add func(clause, m 
 
 func sigCase(desc string, in, out []reflect.Type, wantIn, wantOut []am.Value, reject bool) apiCase {
 	return apiCase{Desc: desc, Run: func() (fs []Finding) {
-		add := func(clause, m string, a ...interface{}) { fs = append(fs, Finding{"C14", clause, desc + ": " + fmt.Sprintf(m, a...)}) }
+		add := func(clause, m string, a ...interface{}) {
+			fs = append(fs, Finding{"C14", clause, desc + ": " + fmt.Sprintf(m, a...)})
+		}
 		ft := reflect.FuncOf(in, out, false)
 		fn := reflect.MakeFunc(ft, func([]reflect.Value) []reflect.Value { return nil }).Interface()
 		f, err := am.NewFunc(fn)
@@ -406,6 +426,8 @@ func init() {
 			{reflect.TypeOf(sUnexpB{}), []am.Value{{Type: typeOf(1)}}},
 			{reflect.TypeOf(sUnexpC{}), []am.Value{{Name: "q", Type: typeOf(0), Subtype: "s"}, {Name: "beta", Type: typeOf(1)}}},
 			{reflect.TypeOf(sUnexpD{}), []am.Value{}},
+			{reflect.TypeOf(sEmbedded{}), []am.Value{{Name: "emb", Type: reflect.TypeOf(Emb{})}, {Name: "alpha", Type: typeOf(0)}}},
+			{reflect.TypeOf(sEmbeddedPtr{}), []am.Value{{Name: "alpha", Type: typeOf(0)}, {Type: reflect.TypeOf(&Emb{})}}},
 		} {
 			emit(sigCase("func("+sc.t.String()+") T2", []reflect.Type{sc.t}, simpleOut, sc.want, simpleOutV, false))
 			emit(sigCase("func(*"+sc.t.String()+") T2", []reflect.Type{reflect.PtrTo(sc.t)}, simpleOut, sc.want, simpleOutV, false))
